@@ -432,6 +432,30 @@ def applyFinish (w : World) (i : IId) (r : Fin) : World :=
     | none => w
   if r == .errTimeout then cancelPendingChildren w (w.ne + 1) I.ev else w
 
+/-- `process_event` entry, executor side: a run loop acquires the global lock, an awaiting handler hands over the event it took -/
+def peEnter (w : World) (p : Proc) (b : BId) : World :=
+  match p with
+  | .rl _ => (w.modBus b fun B => { B with rl := .processing }).setLock (some b)
+  | .inst i => w.modInst i fun I => { I with took := none }
+  | .ext => w
+
+/-- `process_event` entry, event side: pending results for the applicable handlers, the activation is opened;
+    an event without applicable handlers is marked complete at once (`_execute_handlers`) -/
+def peOpen (w : World) (p : Proc) (b : BId) (e : EId) : World :=
+  let hs := applicable w b e
+  let w := w.modEv e fun E => { E with results := E.results ++ hs.map fun k => { hid := k, bus := b } }
+  let w := w.setAct p (some { bus := b, ev := e, todo := hs, running := [] })
+  if hs.isEmpty then markComplete w e else w
+
+/-- normal end of `process_event` (without the executor's release): completion marking, parent walk, eviction,
+    the activation is closed, `task_done()` -/
+def peClose (w : World) (p : Proc) (b : BId) (e : EId) : World :=
+  let w := markComplete w e
+  let w := parentWalk w (w.ne + 1) e []
+  let w := cleanup w b
+  let w := w.setAct p none
+  w.modBus b fun B => { B with unfinished := B.unfinished - 1 }
+
 def apply0 (w : World) : Label → World
   | .newBus b par maxh wal => (w.setBus b { parallel := par, maxh := maxh, wal := wal }).setNb (w.nb + 1)
   | .on b key k kind => w.modBus b fun B =>
@@ -449,15 +473,7 @@ def apply0 (w : World) : Label → World
     | .rl _ => w.modBus b fun B => { B with rl := .took e, woke := false }
     | .inst i => w.modInst i fun I => { I with took := some (b, e), iters := I.iters + 1 }
     | .ext => w
-  | .peBegin p b e =>
-    let w := match p with
-      | .rl _ => (w.modBus b fun B => { B with rl := .processing }).setLock (some b)
-      | .inst i => w.modInst i fun I => { I with took := none }
-      | .ext => w
-    let hs := applicable w b e
-    let w := w.modEv e fun E => { E with results := E.results ++ hs.map fun k => { hid := k, bus := b } }
-    let w := w.setAct p (some { bus := b, ev := e, todo := hs, running := [] })
-    if hs.isEmpty then markComplete w e else w
+  | .peBegin p b e => peOpen (peEnter w p b) p b e
   | .peRecTrip p _ _ =>
     match p with
     | .rl b' => rlBack w b'
@@ -492,14 +508,9 @@ def apply0 (w : World) : Label → World
       | none => w
     if ok then w.modBus b fun B => { B with walLines := B.walLines ++ [e] } else w
   | .peEnd p b e =>
-    let w := markComplete w e
-    let w := parentWalk w (w.ne + 1) e []
-    let w := cleanup w b
-    let w := w.setAct p none
-    let w := w.modBus b fun B => { B with unfinished := B.unfinished - 1 }
     match p with
-    | .rl b' => releaseRl w b'
-    | _ => w
+    | .rl b' => releaseRl (peClose w p b e) b'
+    | _ => peClose w p b e
   | .peAbort p _ _ =>
     let w := w.setAct p none
     match p with
